@@ -118,6 +118,7 @@ def gen(prop, stream, tier, avoid):
             op["update_delta"] = rng.chance(0.5)
             op["to"] = rng.pick(["str", "file"])
             op["obj_opts"] = rng.pick([[], [], ["vertex_normals"], ["parametric_vertices"], ["vertex_normals", "parametric_vertices"]])
+            op["pre"] = rng.pick([None, None, "contains", "next", "break"])
             op["faults"] = []
             if op["to"] == "file" and fl.chance(knobs["fault_p"]):
                 op["faults"].append({"kind": fl.pick(["open_fails", "write_fails", "close_fails"]), "nth": 1, "errno": fl.pick([5, 28])})
@@ -797,6 +798,17 @@ def _do_export(ctx, g, disk, op, idx, st, i, cont, members, world, about_to_obse
     for _, s_ in surfs:
         about_to_observe(s_)
     was_tessellated = [bool(o.tessellator.is_tessellated()) for o, _ in surfs]
+    if op["target"] == "container" and target is cont and op.get("pre") and len(members) >= 1:
+        # the caller has walked part of the container before (a membership test, next(iter(...)), a loop left with break)
+        if op["pre"] == "contains":
+            _ = world[members[len(members) // 2]].obj in cont
+        elif op["pre"] == "next":
+            _ = next(iter(cont))
+        else:
+            for elem_ in cont:
+                if elem_ is world[members[min(1, len(members) - 1)]].obj:
+                    break
+        ctx.probe("container_partially_traversed_before_export")
     path = "/data/mesh_%d.%s" % (idx % 3, fmt)
     disk.arm(op.get("faults", []) if op["to"] == "file" else [])
     content, outcome = None, "returned"
@@ -827,9 +839,13 @@ def _do_export(ctx, g, disk, op, idx, st, i, cont, members, world, about_to_obse
         s_.tess_before, s_.dirty_since = True, False
         if op["update_delta"] or not was:
             s_.spacing = sp          # the writers tessellate before they touch the disk
-    if fired:
+    if fired and outcome != "returned":
         ctx.probe("mesh_export_hit_by_fault")
         return
+    if fired:
+        # the export returned normally although a write / close error fired underneath it: nothing tells the caller to retry, so
+        # the file is checked like any other acknowledged one
+        ctx.probe("mesh_export_returned_normally_although_a_fault_fired")
     if outcome != "returned":
         ctx.fail("export_failed", "fault-free export_%s(%s, vertex_spacing=%d, update_delta=%r) %s" % (fmt, op["target"], sp, op["update_delta"], outcome), **sig)
     if op["to"] == "file":
